@@ -1,5 +1,5 @@
 """Property -> rules (DESIGN.md section 4)."""
-from .rules import live, walk, exc, graph, graph2
+from .rules import live, walk, exc, graph, graph2, repair
 
 SW, GR, OP, BF = 'dsw.spiderweb.', 'dsw.graphized.', 'dsw.operation.', 'dsw.biofilter.'
 
@@ -82,7 +82,44 @@ def c13(ctx):
     live.r_alpha(ctx, ctx.p.funcs.keys(), floor=10)
 
 
+def c04(ctx):
+    live.r_live(ctx, [SW + 'encode'], floor=2)
+    walk.r_walk(ctx, [SW + 'encode'], {SW + 'encode': 2})
+    walk.r_deg(ctx, ['encode'])
+    walk.r_sel(ctx, only=('encode',))
+    # termination of everything the encoder calls; the two coder loops themselves are decided per out-degree by R-DEG
+    # (every branching step divides the variant / advances the cursor), out-degree-1 chains are graph-dependent
+    repair.r_prog(ctx, SW + 'encode', skip_whiles_in=(SW + 'encode',))
+    ctx.run.notes.append('termination on out-degree-1 chains depends on the generated graph (C03) and is not decided')
+
+
+def c08(ctx):
+    fqs = [SW + 'repair_dna', GR + 'path_matching']
+    live.r_live(ctx, fqs, floor=5)
+    walk.r_walk(ctx, fqs, {SW + 'repair_dna': 1, GR + 'path_matching': 5})
+    repair.r_tile(ctx)
+    repair.r_cand(ctx)
+
+
+def c09(ctx):
+    repair.r_ret(ctx)
+    live.r_live(ctx, [SW + 'repair_dna'], floor=1)
+    walk.r_walk(ctx, [SW + 'repair_dna'], {SW + 'repair_dna': 1})
+
+
+def c10(ctx):
+    repair.r_prog(ctx, SW + 'repair_dna')
+    repair.r_heap_guard(ctx)
+    exc.r_exc(ctx, SW + 'repair_dna', set(), floor=0)
+    exc.r_typed_dispatch(ctx, ctx.closure(SW + 'repair_dna'), floor=1)
+    exc.r_typed_index(ctx, SW + 'set_vt')
+
+
 PROPERTIES = {
+    'C04': c04,
+    'C08': c08,
+    'C09': c09,
+    'C10': c10,
     'C02': c02,
     'C03': c03,
     'C11': c11,
